@@ -297,6 +297,9 @@ def open_variants(ras):
         v.append(('bad-astrans-nocap', wire.AS_TRANS, None, 90, ('mp',), 4, True, 2, 2))
         v.append(('bad-as4', as2, ras - 1, 90, ('mp', 'as4'), 4, True, 2, 2))
     v.append(('bad-version', as2, ras, 90, ('mp', 'as4'), 3, True, 2, 1))
+    for ver in (0, 5, 6, 128, 255):            # "accepted iff its version is 4": every other value of the octet, not only smaller ones
+        v.append(('bad-version%d' % ver, as2, ras, 90, ('mp', 'as4'), ver, True, 2, 1))
+    v.append(('bad-version5-nocaps', as2 if small else wire.AS_TRANS, None if small else ras, 90, () if small else ('as4',), 5, True, 2, 1))
     v.append(('bad-hold1', as2, ras, 1, ('mp', 'as4'), 4, True, 2, 6))
     v.append(('bad-hold2', as2, ras, 2, ('mp', 'as4'), 4, True, 2, 6))
     return v
